@@ -158,10 +158,14 @@ class ReuseHistory(Engine):
                                     "fungi": rng.random() < 0.25 and not any(len(gene["parts"]) == 2 for record in
                                                                              base["records"] for gene in record["genes"]),
                                     "toggles": toggles, "sideload_cli": base["sideload_cli"]}
-        # TTA only looks at regions of GC rich records; plant some TTA codons in frame
+        # TTA only looks at regions of GC rich records; plant some TTA codons in frame (in a quarter of the inputs none
+        # at all: the analysis runs and finds nothing, its results are empty but present)
+        plant = rng.random() < 0.75
         for record in scenario["records"]:
             seq = list(record["seq"])
             for gene in record["genes"]:
+                if not plant:
+                    continue
                 if rng.random() < 0.5 and len(gene["parts"]) == 1:
                     start = gene["parts"][0][0] + 3 * rng.randrange(1, 20)
                     codon = "TTA" if gene["strand"] == 1 else "TAA"
@@ -195,14 +199,14 @@ class ReuseHistory(Engine):
         count = rng.randint(1, 4)
         for index in range(count):
             last = index == count - 1
-            kind = weighted(rng, [("same", 5), ("change", 3), ("schema", 1.2 if last else 0), ("foreign", 0.8 if last else 0),
+            kind = weighted(rng, [("same", 5), ("change", 5), ("schema", 1.2 if last else 0), ("foreign", 0.8 if last else 0),
                                   ("fault", 1)])
             step: Dict[str, Any] = {"salt": rng.randrange(1, 1 << 30)}
             if kind == "change":
                 options = copy.deepcopy(options)
-                what = rng.choice(["strictness", "limit_rules", "limit_categories", "tta_threshold", "tta", "multipliers",
+                what = rng.choice(["strictness", "limit_rules", "limit_categories", "tta_threshold", "tta", "tta", "multipliers",
                                    "tfbs", "tfbs_pvalue", "tfbs_range"]
-                                  + (["rre", "rre_cutoff", "rre_minlength"] * 2 if "--rre" in base["extra_args"] else [])
+                                  + (["rre", "rre_cutoff", "rre_cutoff", "rre_minlength"] * 3 if "--rre" in base["extra_args"] else [])
                                   + (["pfam_version"] * 3 if {"--clusterhmmer", "--fullhmmer"} & set(toggles) else []))
                 if what == "strictness":
                     options["strictness"] = rng.choice([s for s in ("strict", "relaxed", "loose") if s != options["strictness"]])
@@ -225,7 +229,8 @@ class ReuseHistory(Engine):
                 elif what == "rre":
                     options["rre"] = not options["rre"]
                 elif what == "rre_cutoff":
-                    options["rre_cutoff"] = rng.choice([c for c in (24.0, 25.0, 30.0, 42.0) if c != options["rre_cutoff"]])
+                    # (mostly towards stricter values that some hit scores exactly)
+                    options["rre_cutoff"] = rng.choice([c for c in (24.0, 25.0, 30.0, 30.0, 42.0, 42.0) if c != options["rre_cutoff"]])
                 elif what == "rre_minlength":
                     options["rre_minlength"] = rng.choice([n for n in (45, 50, 60, 75) if n != options["rre_minlength"]])
                 else:
